@@ -6,10 +6,16 @@
    MerchantEngine.match on the emitted fragment.  Regex search is a parameter ([re]): every theorem holds
    for EVERY regex semantics satisfying the two named laws re_case_law and re_empty_law.
 
-   Result: the full statement is REFUTED on the faithful model (one witness per defect class, each replayed
-   on the real code by harness/c14.py); it is PROVED for all rule lists under the computable guard
-   [safe_rule] and for all transactions in scope ([txn_in_scope]: whole-cent amounts, or no `=` amount
-   modifier in the file). *)
+   The model is the tree AFTER the adopted fixes (escaped pattern literal, abs(amount - N) < 0.01 for
+   [amount=N], loader strips the Merchant/Category/Subcategory cells, rows without category and tags are
+   skipped).  Those defect classes are gone: the former witnesses are now positive Examples below, and the
+   corresponding guards no longer appear in [safe_rule].
+
+   Result: the full statement is still REFUTED by the defects that remain known findings (relative dates,
+   blank merchant, comma inside a tag, expression-like legacy patterns); it is PROVED for all raw row lists
+   pushed through the loader and all transactions under the computable guard [safe_rule]
+   (= cells without newline/CR/NUL and without dynamic tags; merchant non-blank unless the row is a no-op;
+   tags without , ( ); pattern not expression-like for the legacy loop; no relative date). *)
 From Coq Require Import String Ascii List Bool ZArith NArith.
 From Tally Require Import Lib.Str C14.Model C14.Proofs.
 Import ListNotations.
@@ -21,7 +27,8 @@ Open Scope string_scope.
    subcategory and the same tag set as the legacy loop. *)
 Definition c14_conversion_preserves_statement : Prop :=
   forall re lx, re_case_law re -> re_empty_law re ->
-  forall today rules t, load_all rules <> LUnm ->
+  forall today raw t, let rules := map loader_cells raw in
+    load_all rules <> LUnm ->
     exists ers, load_all rules = LOk ers /\
                 res_equiv (engine_classify re ers t) (legacy_classify re lx today rules t).
 
@@ -30,20 +37,7 @@ Definition sbytes (l : list N) : string := fold_right (fun n s => String (ascii_
 Definition rule p am dt m c s tg : csv_rule :=
   {| pat := p; amts := am; dates := dt; merchant := m; category := c; subcategory := s; tags := tg |}.
 Definition tx d a dt : txn := {| desc := d; amount := a; date := dt |}.
-Definition money (units_of_1_6400 : Z) := units_of_1_6400.
 
-(* \b : word boundary in the CSV, BACKSPACE after regex("\bUBER\b") is read back *)
-Definition w_word_boundary := rule "\bUBER\b" [] [] "Uber" "Transport" "Ride" [].
-Definition w_word_boundary_tbl :=
-  [("\bUBER\b", "UBER TRIP", Some true); (sbytes [8; 85; 66; 69; 82; 8]%N, "UBER TRIP", Some false)].
-(* \1 : back-reference in the CSV, the character U+0001 after quoting *)
-Definition w_backref := rule "A(\d)\1" [] [] "Rep" "C" "S" [].
-Definition w_backref_tbl :=
-  [("A(\d)\1", "A11", Some true); ("A(\d)" ++ sbytes [1]%N, "A11", Some false)].
-(* a double quote ends the literal early *)
-Definition w_quote := rule (sbytes [65; 34; 66]%N) [] [] "Q" "C" "S" [].
-(* a lone trailing backslash swallows the closing quote *)
-Definition w_trailing_backslash := rule "END\" [] [] "E" "C" "S" [].
 (* [amount>3][date:last30days] renders as `... and amount > 3.0 and # Note: was last30days` *)
 Definition w_relative_syntax :=
   rule "X" [{| a_op := AGt; a_v := 19200; a_hi := 0 |}]%Z [DRel 30] "R" "C" "S" [].
@@ -51,13 +45,9 @@ Definition w_relative_syntax :=
 Definition w_relative_dropped := rule "X" [] [DRel 30] "R" "C" "S" [].
 (* ... and takes every later modifier with it *)
 Definition w_relative_swallows_month := rule "X" [] [DRel 30; DMonth 3] "R" "C" "S" [].
-(* [amount=10.00] : legacy |amount - 10| < 0.01, migrated amount == 10.0 *)
-Definition w_amount_eq := rule "X" [{| a_op := AEq; a_v := 64000; a_hi := 0 |}]%Z [] "E" "C" "S" [].
-Definition w_blank_merchant := rule "X" [] [] "" "C" "S" [].
-Definition w_blank_category := rule "X" [] [] "M" "" "S" [].
-Definition w_padded_name := rule "NETFLIX" [] [] " Netflix" "Subs" "Stream" [].
+Definition w_blank_merchant := rule "X" [] [] "  " "C" "S" [].
 Definition w_comma_tag := rule "X" [] [] "M" "C" "S" ["a,b"; "c"].
-(* F1: the legacy loop evaluates a pattern starting with "(" as an expression (and skips it on error) *)
+(* F1: the legacy loop evaluates a pattern starting with an opening parenthesis as an expression *)
 Definition w_paren := rule "(UBER|LYFT)" [] [] "Ride" "C" "S" [].
 Definition x_tbl := [("X", "X", Some true)].
 Definition no_lx : string -> txn -> option bool := fun _ _ => None.
@@ -68,32 +58,16 @@ Ltac refute_by tbl lx today :=
   let ers := fresh "ers" in let Hl := fresh "Hl" in let He := fresh "He" in
   intros [ers [Hl He]]; vm_compute in Hl; injection Hl as <-; vm_compute in He.
 
-Theorem c14_refuted_word_boundary : fails_on [w_word_boundary] (tx "UBER TRIP" 32000 739252).
-Proof. refute_by w_word_boundary_tbl no_lx 739890%Z. destruct He as [He _]. discriminate. Qed.
-Print Assumptions c14_refuted_word_boundary.
-
-Theorem c14_refuted_back_reference : fails_on [w_backref] (tx "A11" 32000 739252).
-Proof. refute_by w_backref_tbl no_lx 739890%Z. destruct He as [He _]. discriminate. Qed.
-Print Assumptions c14_refuted_back_reference.
-
+(* ---- what still fails (the remaining known findings) --------------------------------------------------- *)
 (* the generated file does not load at all (whatever the regex semantics) *)
-Theorem c14_refuted_quote_load_error : load_all [w_quote] = LErr.
-Proof. vm_compute. reflexivity. Qed.
-Print Assumptions c14_refuted_quote_load_error.
-Theorem c14_refuted_trailing_backslash_load_error : load_all [w_trailing_backslash] = LErr.
-Proof. vm_compute. reflexivity. Qed.
-Print Assumptions c14_refuted_trailing_backslash_load_error.
-Theorem c14_refuted_relative_date_load_error : load_all [w_relative_syntax] = LErr.
+Theorem c14_refuted_relative_date_load_error : load_all (map loader_cells [w_relative_syntax]) = LErr.
 Proof. vm_compute. reflexivity. Qed.
 Print Assumptions c14_refuted_relative_date_load_error.
-Theorem c14_refuted_blank_merchant_load_error : load_all [w_blank_merchant] = LErr.
+(* one row with a blank Merchant makes the WHOLE file unloadable, healthy rules included *)
+Theorem c14_refuted_blank_merchant_load_error :
+  load_all (map loader_cells [rule "Y" [] [] "N" "C" "S" []; w_blank_merchant]) = LErr.
 Proof. vm_compute. reflexivity. Qed.
 Print Assumptions c14_refuted_blank_merchant_load_error.
-(* one rule without category and tags makes the WHOLE file unloadable, healthy rules included *)
-Theorem c14_refuted_blank_category_load_error :
-  load_all [rule "Y" [] [] "N" "C" "S" []; w_blank_category] = LErr.
-Proof. vm_compute. reflexivity. Qed.
-Print Assumptions c14_refuted_blank_category_load_error.
 
 (* transaction of 2020-01-01 seen on 2026-10-01: outside the last 30 days, yet matched after migration *)
 Theorem c14_refuted_relative_date_dropped : fails_on [w_relative_dropped] (tx "X" 32000 737425).
@@ -103,15 +77,6 @@ Print Assumptions c14_refuted_relative_date_dropped.
 Theorem c14_refuted_relative_date_swallows_month : fails_on [w_relative_swallows_month] (tx "X" 32000 739433).
 Proof. refute_by x_tbl no_lx 739442%Z. destruct He as [He _]. discriminate. Qed.
 Print Assumptions c14_refuted_relative_date_swallows_month.
-
-(* amount 10.0078125 against [amount=10.00] *)
-Theorem c14_refuted_amount_eq_tolerance : fails_on [w_amount_eq] (tx "X" 64050 739252).
-Proof. refute_by x_tbl no_lx 739890%Z. destruct He as [He _]. discriminate. Qed.
-Print Assumptions c14_refuted_amount_eq_tolerance.
-
-Theorem c14_refuted_padded_name : fails_on [w_padded_name] (tx "NETFLIX" 32000 739252).
-Proof. refute_by [("NETFLIX", "NETFLIX", Some true)] no_lx 739890%Z. destruct He as [He _]. discriminate. Qed.
-Print Assumptions c14_refuted_padded_name.
 
 Theorem c14_refuted_comma_in_tag : fails_on [w_comma_tag] (tx "X" 32000 739252).
 Proof.
@@ -130,7 +95,7 @@ Lemma statement_same : c14_conversion_preserves_statement <-> conversion_preserv
 Proof. unfold c14_conversion_preserves_statement, conversion_preserves_statement, preserves_at. tauto. Qed.
 
 Theorem c14_conversion_preserves_refuted : ~ c14_conversion_preserves_statement.
-Proof. rewrite statement_same. exact (fails_on_refutes _ _ c14_refuted_word_boundary). Qed.
+Proof. rewrite statement_same. exact (fails_on_refutes _ _ c14_refuted_relative_date_dropped). Qed.
 Print Assumptions c14_conversion_preserves_refuted.
 
 (* the case law is needed: a regex semantics with a scoped case-sensitive group breaks even a safe rule *)
@@ -150,86 +115,131 @@ Proof.
 Qed.
 Print Assumptions c14_case_law_is_needed.
 
-(* ---- what does hold ------------------------------------------------------------------------------------ *)
+(* ---- what holds ------------------------------------------------------------------------------------------ *)
+(* for every list of raw CSV rows pushed through the loader, every transaction (any amount, any date) *)
 Theorem c14_conversion_preserves_partial :
   forall re lx, re_case_law re -> re_empty_law re ->
-  forall today rules, forallb safe_rule rules = true ->
-  forall t, txn_in_scope rules t ->
-    exists ers, load_all rules = LOk ers /\
-                res_equiv (engine_classify re ers t) (legacy_classify re lx today rules t).
+  forall today raw, let rules := map loader_cells raw in
+  forallb safe_rule rules = true ->
+  forall t, exists ers, load_all rules = LOk ers /\
+                        res_equiv (engine_classify re ers t) (legacy_classify re lx today rules t).
 Proof. exact conversion_preserves_partial. Qed.
 Print Assumptions c14_conversion_preserves_partial.
 
-(* under the guard the two classifications are not merely equivalent but equal, rule by rule *)
-Theorem c14_safe_rule_reads_back :
-  forall re lx today r, re_case_law re -> re_empty_law re -> safe_rule r = true ->
-  exists e, load_rule r = LOk e /\ e_name e = merchant r /\ e_cat e = category r /\ e_sub e = subcategory r
-            /\ e_tags e = tags r
-            /\ forall t, amount_ok_for t (amts r) ->
-                 is_true (eval_and re t (e_match e)) = is_true (legacy_match re lx today r t).
-Proof.
-  intros re lx today r Lc Le H. destruct (safe_rule_loads re lx today r Lc Le H) as [e [E [A B C D M]]].
-  exists e. repeat split; auto.
-Qed.
-Print Assumptions c14_safe_rule_reads_back.
+(* the same for any rule list whose cells are already stripped, with EQUAL (not just equivalent) results *)
+Theorem c14_conversion_preserves_loaded :
+  forall re lx, re_case_law re -> re_empty_law re ->
+  forall today rules, forallb cells_stripped rules = true -> forallb safe_rule rules = true ->
+  exists ers, load_all rules = LOk ers /\
+              forall t, engine_classify re ers t = legacy_classify re lx today rules t.
+Proof. intros re lx Lc Le today rules. now apply safe_rules_classify. Qed.
+Print Assumptions c14_conversion_preserves_loaded.
 
-(* exactly which patterns survive being written between double quotes and read back by Python *)
+(* the loader leaves no padded or missing cell behind *)
+Theorem c14_loader_cells_stripped : forall r, cells_stripped (loader_cells r) = true.
+Proof. exact loader_cells_stripped. Qed.
+Print Assumptions c14_loader_cells_stripped.
+
+(* EVERY pattern (no newline/CR/NUL) written by _quote_pattern is one literal and reads back as itself:
+   backslash classes, \b, back-references, quotes, a trailing backslash ... *)
+Theorem c14_quote_reads_back :
+  forall p, sexists is_ctl p = false -> lex_ok (quote_body p) = true /\ unesc (quote_body p) = UVal p.
+Proof. exact quote_reads_back. Qed.
+Print Assumptions c14_quote_reads_back.
+
+(* history (pre-fix converter, which wrote the pattern between the quotes unescaped): exactly which
+   patterns would have survived that, i.e. which CSV files the escaping fix changes the migration of *)
 Theorem c14_unescape_id_iff : forall p, unesc p = UVal p <-> esc_free p = true.
 Proof. exact unesc_id_iff. Qed.
 Print Assumptions c14_unescape_id_iff.
-
-(* ... namely those in which no backslash is followed by a backslash, a quote, a double quote, one of
-   a b f n r t v 0-7 x N u U, or by nothing *)
 Theorem c14_esc_free_spec :
   forall p, esc_free p = true <->
     forall pre post, p = pre ++ bslash ++ post -> exists c post', post = String c post' /\ is_escape_char c = false.
 Proof. exact esc_free_spec. Qed.
 Print Assumptions c14_esc_free_spec.
 
-(* a rule's tags survive `tags: a, b` + the engine's comma splitting *)
+(* a rule's tags survive the tags line + the engine's comma splitting *)
 Theorem c14_tags_roundtrip :
   forall l, forallb safe_tag l = true -> l <> [] -> split_tags (strip (join ", " l)) = l.
 Proof. exact tags_roundtrip. Qed.
 Print Assumptions c14_tags_roundtrip.
 
+(* ---- the former witnesses of the repaired defects now migrate faithfully -------------------------------- *)
+Definition w_word_boundary := rule "\bUBER\b" [] [] "Uber" "Transport" "Ride" [].
+Definition w_backref := rule "A(\d)\1" [] [] "Rep" "C" "S" [].
+Definition w_quote := rule (sbytes [65; 34; 66]%N) [] [] "Q" "C" "S" [].
+Definition w_trailing_backslash := rule "END\" [] [] "E" "C" "S" [].
+Definition w_amount_eq := rule "X" [{| a_op := AEq; a_v := 64000; a_hi := 0 |}]%Z [] "E" "C" "S" [].
+Definition w_padded_name := rule "NETFLIX" [] [] " Netflix" " Subs " "Stream" [].
+Definition w_blank_category := rule "X" [] [] "M" " " "S" [].
+
+Example c14_fixed_witnesses_in_guard :
+  forallb safe_rule (map loader_cells [w_word_boundary; w_backref; w_quote; w_trailing_backslash; w_amount_eq;
+                                       w_padded_name; w_blank_category]) = true.
+Proof. vm_compute. reflexivity. Qed.
+
+Example c14_fixed_escapes_read_back :
+  load_all (map loader_cells [w_word_boundary; w_backref; w_quote; w_trailing_backslash; w_blank_category]) =
+  LOk [ {| e_name := "Uber"; e_cat := "Transport"; e_sub := "Ride"; e_tags := []; e_match := [ERegex "\bUBER\b"] |};
+        {| e_name := "Rep"; e_cat := "C"; e_sub := "S"; e_tags := []; e_match := [ERegex "A(\d)\1"] |};
+        {| e_name := "Q"; e_cat := "C"; e_sub := "S"; e_tags := []; e_match := [ERegex (sbytes [65; 34; 66]%N)] |};
+        {| e_name := "E"; e_cat := "C"; e_sub := "S"; e_tags := []; e_match := [ERegex "END\"] |} ].
+Proof. vm_compute. reflexivity. Qed.
+
+(* 10.0078125 against [amount=10.00]: matched on both sides now; the padded cells come out stripped on both *)
+Example c14_fixed_amount_eq_and_padding :
+  let rules := map loader_cells [w_amount_eq; w_padded_name] in
+  let re := witness_re [("X", "X", Some true); ("NETFLIX", "NETFLIX", Some true)] in
+  exists ers, load_all rules = LOk ers /\
+    r_cls (engine_classify re ers (tx "X" 64050 739252)) = Some ("E", "C", "S") /\
+    r_cls (legacy_classify re no_lx 739890 rules (tx "X" 64050 739252)) = Some ("E", "C", "S") /\
+    r_cls (engine_classify re ers (tx "X" 64064 739252)) = None /\
+    r_cls (legacy_classify re no_lx 739890 rules (tx "X" 64064 739252)) = None /\
+    r_cls (engine_classify re ers (tx "NETFLIX" 100 739252)) = Some ("Netflix", "Subs", "Stream") /\
+    r_cls (legacy_classify re no_lx 739890 rules (tx "NETFLIX" 100 739252)) = Some ("Netflix", "Subs", "Stream").
+Proof. eexists. split; [vm_compute; reflexivity|]. vm_compute. repeat split; reflexivity. Qed.
+
 (* ---- non-vacuity: realistic rules satisfy the guard, load, and classify -------------------------------- *)
 Definition ex_rules : list csv_rule :=
   [ rule "^AMZN\s*MKTP" [{| a_op := ARange; a_v := 320000; a_hi := 1280000 |}]%Z [] "Amazon" "Shopping" "Online" ["big"];
-    rule "COSTCO(?!\s*GAS)" [{| a_op := AGt; a_v := 1280000; a_hi := 0 |}]%Z [DRange 739252 739616] "Costco" "Food" "Groceries" ["bulk"; "Warehouse"];
-    rule "STARBUCKS|DUNKIN" [{| a_op := AEq; a_v := 35200; a_hi := 0 |}]%Z [DMonth 3] "Coffee" "Food" "Coffee" [];
-    rule "[0-9]{4}$" [] [DEq 739325] "" "" "" [] ;
+    rule "\bCOSTCO\b(?!\s*GAS)" [{| a_op := AGt; a_v := 1280000; a_hi := 0 |}]%Z [DRange 739252 739616] " Costco" "Food" "Groceries" ["bulk"; "Warehouse"];
+    rule "STARBUCKS|DUNKIN" [{| a_op := AEq; a_v := 35250; a_hi := 0 |}]%Z [DMonth 3] "Coffee" "Food" "Coffee" [];
+    rule "[0-9]{4}$" [] [DEq 739325] "Unused" "" "" [] ;
     rule "SQ \*[A-Z]+" [] [] "Square" "" "" ["pos"];
     rule "" [{| a_op := ALe; a_v := 6400; a_hi := 0 |}]%Z [] "Small" "Misc" "" [] ].
-Definition ex_safe := [nth 0 ex_rules w_paren; nth 1 ex_rules w_paren; nth 2 ex_rules w_paren; nth 4 ex_rules w_paren; nth 5 ex_rules w_paren].
 Definition ex_tbl :=
-  [("COSTCO(?!\s*GAS)", "COSTCO WHSE #12", Some true); ("^AMZN\s*MKTP", "COSTCO WHSE #12", Some false);
-   ("STARBUCKS|DUNKIN", "COSTCO WHSE #12", Some false); ("SQ \*[A-Z]+", "COSTCO WHSE #12", Some false)].
+  [("\bCOSTCO\b(?!\s*GAS)", "COSTCO WHSE #12", Some true); ("^AMZN\s*MKTP", "COSTCO WHSE #12", Some false);
+   ("STARBUCKS|DUNKIN", "COSTCO WHSE #12", Some false); ("SQ \*[A-Z]+", "COSTCO WHSE #12", Some false);
+   ("[0-9]{4}$", "COSTCO WHSE #12", Some false)].
 
-Example c14_example_guard : forallb safe_rule ex_safe = true /\ safe_rule (nth 3 ex_rules w_paren) = false.
-Proof. vm_compute. split; reflexivity. Qed.
+Example c14_example_guard : forallb safe_rule (map loader_cells ex_rules) = true.
+Proof. vm_compute. reflexivity. Qed.
 
 Example c14_example_classification :
   let t := tx "Costco Whse #12" 1600000 739300 in       (* 250.00 on 2025-02-18 *)
-  txn_in_scope ex_safe t /\
-  exists ers, load_all ex_safe = LOk ers /\
-    engine_classify (witness_re ex_tbl) ers t = legacy_classify (witness_re ex_tbl) no_lx 739890 ex_safe t /\
+  let rules := map loader_cells ex_rules in
+  exists ers, load_all rules = LOk ers /\ length ers = 5%nat /\
+    engine_classify (witness_re ex_tbl) ers t = legacy_classify (witness_re ex_tbl) no_lx 739890 rules t /\
     r_cls (engine_classify (witness_re ex_tbl) ers t) = Some ("Costco", "Food", "Groceries") /\
     r_tags (engine_classify (witness_re ex_tbl) ers t) = ["bulk"; "warehouse"].
-Proof.
-  split; [left; reflexivity|]. eexists. split; [vm_compute; reflexivity|]. vm_compute. repeat split; reflexivity.
-Qed.
+Proof. eexists. split; [vm_compute; reflexivity|]. vm_compute. repeat split; reflexivity. Qed.
 
 Example c14_example_text :
-  gen_content [nth 1 ex_rules w_paren] =
+  gen_content (map loader_cells [nth 1 ex_rules w_paren; nth 2 ex_rules w_paren; nth 3 ex_rules w_paren]) =
   join nl (app header_lines
     ["[Costco]";
-     "match: regex(" ++ dq ++ "COSTCO(?!\s*GAS)" ++ dq ++ ") and amount > 200.0 and date >= " ++ dq ++ "2025-01-01" ++ dq
+     "match: regex(" ++ dq ++ "\\bCOSTCO\\b(?!\\s*GAS)" ++ dq ++ ") and amount > 200.0 and date >= " ++ dq ++ "2025-01-01" ++ dq
        ++ " and date <= " ++ dq ++ "2025-12-31" ++ dq;
-     "category: Food"; "subcategory: Groceries"; "tags: bulk, Warehouse"; ""]).
+     "category: Food"; "subcategory: Groceries"; "tags: bulk, Warehouse"; "";
+     "[Coffee]";
+     "match: regex(" ++ dq ++ "STARBUCKS|DUNKIN" ++ dq ++ ") and abs(amount - 5.5078125) < 0.01 and month == 3";
+     "category: Food"; "subcategory: Coffee"; "";
+     "# Skipped (no category or tags): [0-9]{4}$"; ""]).
 Proof. vm_compute. reflexivity. Qed.
 
 Example c14_example_unescape :
-  unesc "UBER\s*EATS" = UVal "UBER\s*EATS" /\ esc_free "PAYPAL \*(EBAY|ETSY)" = true /\
-  esc_free "\bUBER" = false /\ esc_free "A(\d)\1" = false /\ esc_free "X\\Y" = false /\ esc_free "END\" = false /\
+  unesc (quote_body "UBER\s*EATS") = UVal "UBER\s*EATS" /\ unesc (quote_body "\bUBER") = UVal "\bUBER" /\
+  unesc (quote_body "END\") = UVal "END\" /\ quote_body "X\\Y" = "X\\\\Y" /\
+  esc_free "\bUBER" = false /\ esc_free "A(\d)\1" = false /\ esc_free "PAYPAL \*(EBAY|ETSY)" = true /\
   unesc "\x41\101\n" = UVal ("AA" ++ nl) /\ unesc "\xZ1" = UErr /\ unesc "\N{DASH}" = UUnm.
 Proof. vm_compute. repeat split; reflexivity. Qed.
